@@ -219,3 +219,29 @@ def parallel_map(fn, items, nproc=None, chunksize=1):
     ctx = mp.get_context('fork')
     with ctx.Pool(min(nproc, len(items))) as pool:
         return pool.map(fn, items, chunksize=chunksize)
+
+
+def stream(small_fn, small_jobs, wide_fn, wide_jobs, tier, step=200, chunksize=2):
+    """quick tier: one list; thorough tier: a generator of chunks (execute a slice of the jobs, hand the observations to the
+    judge, forget them) so that memory stays bounded however large the small world is"""
+    if tier == 'quick':
+        obs = []
+        for part in parallel_map(small_fn, small_jobs, chunksize=chunksize):
+            obs += part
+        for part in parallel_map(wide_fn, wide_jobs):
+            obs += part
+        return obs
+    return _gen(small_fn, small_jobs, wide_fn, wide_jobs, step, chunksize)
+
+
+def _gen(small_fn, small_jobs, wide_fn, wide_jobs, step, chunksize):
+    for k in range(0, len(small_jobs), step):
+        obs = []
+        for part in parallel_map(small_fn, small_jobs[k:k + step], chunksize=chunksize):
+            obs += part
+        yield obs
+    for k in range(0, len(wide_jobs), 4):
+        obs = []
+        for part in parallel_map(wide_fn, wide_jobs[k:k + 4]):
+            obs += part
+        yield obs
